@@ -39,7 +39,7 @@ NMSG = 4
 
 
 def plan(tier, seed):
-    out = [{'mode': 'order', 'order': o, 'cost': 4000} for o in ORDERS]
+    out = [{'mode': 'order', 'order': o, 'cost': 4000, 'fresh_process': True} for o in ORDERS]
     out += [{'mode': 'messages', 'slice': i, 'cost': 1500} for i in range(NMSG)]
     for t in sorted(ref.DFAS):
         a = len(ref.DFAS[t].alphabet)
